@@ -347,6 +347,7 @@ class SCursorSlice:
                 take = sym.wrap_expr(z3.If(lift(k) <= lift(rem), lift(k), z3.If(lift(rem) > 0, lift(rem), 0)))
             start = c.pos
             self._m = sym.seq_slice(c.seq, start, start + take)
+            self.lo, self.hi = start, start + take
             c.pos = start + take
         return self._m
 
